@@ -39,10 +39,11 @@ def observe(nf, expected_nested):
                 usable[n] = f"dtype {t}"
                 continue
             f = t.field_names[0]
-            _ = nf[f"{n}.{f}"]
-            _ = nf.query(f"{n}.{f} == {n}.{f}")
+            qn = f"`{n}`" if "." in n else n       # a nest whose own name contains a dot is spelled quoted
+            _ = nf[f"{qn}.{f}"]
+            _ = nf.query(f"{qn}.{f} == {qn}.{f}")
             g = nf.copy()
-            g[f"{n}.probe"] = np.zeros(int(nf[n].nest.flat_length))
+            g[f"{qn}.probe"] = np.zeros(int(nf[n].nest.flat_length))
             assert isinstance(g[n].dtype, NestedDtype)
             usable[n] = "ok"
         except Exception as e:  # noqa: BLE001
@@ -124,7 +125,13 @@ def chain_ops(rng):
     def flat_for(f):
         lab = list(dict.fromkeys(f.index.tolist()))[:2]
         return pd.DataFrame({"v": np.arange(2 * len(lab), dtype=np.float64)}, index=pd.Index(lab * 2, dtype=f.index.dtype))
+    def flat_all(f):
+        # records for EVERY label of the frame (then the packed labels are exactly the frame's labels)
+        lab = list(dict.fromkeys(f.index.tolist()))
+        return pd.DataFrame({"v": np.arange(2 * len(lab), dtype=np.float64)}, index=pd.Index(lab * 2, dtype=f.index.dtype))
     ops = [
+        ("add_nested_all_labels", lambda f: f.add_nested(flat_all(f), "extra2"), {"op": "addNested", "name": "extra2", "fields": ["v"]}),
+        ("add_nested_dotted_name", lambda f: f.add_nested(flat_all(f), "ex.tra"), {"op": "addNested", "name": "ex.tra", "fields": ["v"]}),
         ("query_nested", lambda f: f.query("n.a > 0"), row),
         ("query_nested_none", lambda f: f.query("n.a > 1e9"), row),
         ("query_nested_all", lambda f: f.query("n.b > -1e9"), row),
@@ -186,9 +193,12 @@ def run_chain(ctx, names=None, depth=None):
         need = {"concat_parquet_first": ["x"], "sort_base": ["k"], "dropna_base": ["x"], "query_base": ["x"], "query_base_none": ["x"], "set_index": ["x"],
                 "query_nested_all": ["n.b"], "sort_nested": ["n.b"], "eval_assign": ["n.b"], "query_nested": ["n.a"],
                 "query_nested_none": ["n.a"], "dropna_nested": ["n.a"], "select_cols": ["x", "other"]}.get(nm, [])
-        avoid = {"join_base": ["j"], "add_nested": ["extra"]}.get(nm, [])
+        avoid = {"join_base": ["j"], "add_nested": ["extra"], "add_nested_all_labels": ["extra2"],
+                 "add_nested_dotted_name": ["ex.tra"]}.get(nm, [])
 
         def has(path):
+            if path == "ex.tra":
+                return path in cur.columns
             if "." in path:
                 c, f = path.split(".")
                 return c in cur.columns and isinstance(cur[c].dtype, NestedDtype) and f in cur[c].nest.fields
